@@ -153,6 +153,9 @@ def gen_scenario(rng, awkward, n_ops):
                                              " opts=1" if rng.random() < 0.25 else "",
                                              " name=" + rng.choice(["sid", "x-aff_1", "A.b%7Cc"]) if rng.random() < 0.12 else "",
                                              " verbose=1" if rng.random() < 0.25 else "")]
+    if rng.random() < 0.3:
+        # the handler behind the balancer completes req.URL in place, as a reverse-proxy director does: the pool must not notice
+        lines[0] += " director=1"
     urls = []
     while len(urls) < rng.randint(2, 6):
         u = gen_url(rng, awkward)
